@@ -110,8 +110,12 @@ func NewValueSet(vs []Value) (*ValueSet, error) {
 
 		// TODO(mitchellh): error on duplicate names, types
 
-		// Build our tag.
-		tags := []string{""}
+		// Build our tag. The name travels in the tag (not in the field name)
+		// so that it does not have to be a Go identifier.
+		if strings.Contains(v.Name, ",") {
+			return nil, fmt.Errorf("value name %q can't contain a comma", v.Name)
+		}
+		tags := []string{v.Name}
 		if v.Name == "" {
 			tags = append(tags, "typeOnly")
 		}
@@ -125,7 +129,7 @@ func NewValueSet(vs []Value) (*ValueSet, error) {
 		switch v.Kind() {
 		case ValueNamed:
 			sf = append(sf, reflect.StructField{
-				Name: strings.ToUpper(v.Name),
+				Name: fmt.Sprintf("V__Name_%d", i),
 				Type: v.Type,
 				Tag:  tag,
 			})
